@@ -71,7 +71,8 @@ mutual
 def Stat (c : Nat) : WNode → Prop
   | .mk d cs rs _ _ _ c' => d > 0 ∧ (cs = [] → rs = []) ∧
       (cs ≠ [] → c' = c ∧ cs.length + rs.length + (codecIsLong c).toNat ≤ 255 ∧ rs.length ≤ 2 * cs.length ∧
-        d = (cs.map WNode.dRangeSize).sum ∧ StatList c d cs)
+        d = (cs.map WNode.dRangeSize).sum ∧ StatList c d cs ∧
+        (∀ x ∈ cs.map WNode.secondary, x ≠ 0 → x ∈ rs) ∧ (∀ x ∈ cs.map WNode.tertiary, x ≠ 0 → x ∈ rs))
 def StatList (c d : Nat) : List WNode → Prop
   | [] => True
   | o :: os => Stat c o ∧ (o.isBranch = true → o.secondary = 0 ∧ o.dRangeSize < d) ∧ StatList c d os
@@ -101,8 +102,16 @@ theorem stat_of (c : Nat) (long : Bool) (hl : codecIsLong c = long) :
   refine ⟨hd1, hu2, fun hne => ?_⟩
   rcases hg with h | ⟨g1, g2, g3, g4, g5⟩
   · exact absurd h hne
-  · refine ⟨hu1, ?_, g3, hd2 hne, ?_⟩
+  · have hgl := (goodList_iff _ _ _).mp g5
+    refine ⟨hu1, ?_, g3, hd2 hne, ?_, ?_, ?_⟩
     · rw [hl]; cases long <;> simp at g1 ⊢ <;> omega
+    rotate_left
+    · intro x hx hx0
+      obtain ⟨o, ho, rfl⟩ := List.mem_map.mp hx
+      exact (hgl o ho).2.1 hx0
+    · intro x hx hx0
+      obtain ⟨o, ho, rfl⟩ := List.mem_map.mp hx
+      exact (hgl o ho).2.2 hx0
     · rw [statList_iff]
       intro o ho
       have hgo := ((goodList_iff _ _ _).mp g5 o ho).1
@@ -128,17 +137,21 @@ theorem calc_stat (n : WNode) (acc : Nat) (r : Bool) :
     ∀ c, Stat c n → Stat c (n.calcEncodedSize acc r).1 ∧ leavesOf (n.calcEncodedSize acc r).1 = leavesOf n ∧
       (n.calcEncodedSize acc r).1.dRangeSize = n.dRangeSize ∧
       (n.calcEncodedSize acc r).1.isBranch = n.isBranch ∧
-      (n.calcEncodedSize acc r).1.secondary = n.secondary := by
+      (n.calcEncodedSize acc r).1.secondary = n.secondary ∧
+      (n.calcEncodedSize acc r).1.tertiary = n.tertiary := by
   refine WNode.calcEncodedSize.induct
     (fun n acc r => ∀ c, Stat c n → Stat c (n.calcEncodedSize acc r).1 ∧
       leavesOf (n.calcEncodedSize acc r).1 = leavesOf n ∧
       (n.calcEncodedSize acc r).1.dRangeSize = n.dRangeSize ∧
       (n.calcEncodedSize acc r).1.isBranch = n.isBranch ∧
-      (n.calcEncodedSize acc r).1.secondary = n.secondary)
+      (n.calcEncodedSize acc r).1.secondary = n.secondary ∧
+      (n.calcEncodedSize acc r).1.tertiary = n.tertiary)
     (fun cs acc => ∀ c d, StatList c d cs → StatList c d (calcEncodedSizeList cs acc).1 ∧
       leavesOfList (calcEncodedSizeList cs acc).1 = leavesOfList cs ∧
       (calcEncodedSizeList cs acc).1.map WNode.dRangeSize = cs.map WNode.dRangeSize ∧
-      (calcEncodedSizeList cs acc).1.length = cs.length)
+      (calcEncodedSizeList cs acc).1.length = cs.length ∧
+      (calcEncodedSizeList cs acc).1.map WNode.secondary = cs.map WNode.secondary ∧
+      (calcEncodedSizeList cs acc).1.map WNode.tertiary = cs.map WNode.tertiary)
     ?_ ?_ ?_ ?_ ?_ n acc r
   · intro d cs rs col s t c acc r arity h0 c' hs
     simp only [arity] at h0
@@ -155,15 +168,15 @@ theorem calc_stat (n : WNode) (acc : Nat) (r : Bool) :
     simp only [hcalc]
     simp only [Stat] at hs ⊢
     obtain ⟨h1, h2, h3⟩ := hs
-    obtain ⟨e1, e2, e3, e4, e5⟩ := h3 hne
+    obtain ⟨e1, e2, e3, e4, e5, e6, e7⟩ := h3 hne
     have ih' := ih c' d e5
     rw [hcalc] at ih'
     simp only at ih'
-    obtain ⟨i1, i2, i3, i4⟩ := ih'
+    obtain ⟨i1, i2, i3, i4, i5, i6⟩ := ih'
     have hne' : cs' ≠ [] := by
       intro h; rw [h] at i4; exact hne (List.eq_nil_of_length_eq_zero i4.symm)
-    refine ⟨⟨h1, fun h => absurd h hne', fun _ => ⟨e1, by rw [i4]; exact e2, by rw [i4]; exact e3, by rw [i3]; exact e4, i1⟩⟩,
-      ?_, rfl, ?_, rfl⟩
+    refine ⟨⟨h1, fun h => absurd h hne', fun _ => ⟨e1, by rw [i4]; exact e2, by rw [i4]; exact e3, by rw [i3]; exact e4, i1,
+      by rw [i5]; exact e6, by rw [i6]; exact e7⟩⟩, ?_, rfl, ?_, rfl, rfl⟩
     · rw [leavesOf_branch _ _ _ _ _ _ _ hne', leavesOf_branch _ _ _ _ _ _ _ hne, i2]
     · simp only [WNode.isBranch, WNode.children]
       cases cs with
@@ -190,15 +203,15 @@ theorem calc_stat (n : WNode) (acc : Nat) (r : Bool) :
     simp only [hcalc]
     simp only [Stat] at hs ⊢
     obtain ⟨h1, h2, h3⟩ := hs
-    obtain ⟨e1, e2, e3, e4, e5⟩ := h3 hne
+    obtain ⟨e1, e2, e3, e4, e5, e6, e7⟩ := h3 hne
     have ih' := ih c' d e5
     rw [hcalc] at ih'
     simp only at ih'
-    obtain ⟨i1, i2, i3, i4⟩ := ih'
+    obtain ⟨i1, i2, i3, i4, i5, i6⟩ := ih'
     have hne' : cs' ≠ [] := by
       intro h; rw [h] at i4; exact hne (List.eq_nil_of_length_eq_zero i4.symm)
-    refine ⟨⟨h1, fun h => absurd h hne', fun _ => ⟨e1, by rw [i4]; exact e2, by rw [i4]; exact e3, by rw [i3]; exact e4, i1⟩⟩,
-      ?_, rfl, ?_, rfl⟩
+    refine ⟨⟨h1, fun h => absurd h hne', fun _ => ⟨e1, by rw [i4]; exact e2, by rw [i4]; exact e3, by rw [i3]; exact e4, i1,
+      by rw [i5]; exact e6, by rw [i6]; exact e7⟩⟩, ?_, rfl, ?_, rfl, rfl⟩
     · rw [leavesOf_branch _ _ _ _ _ _ _ hne', leavesOf_branch _ _ _ _ _ _ _ hne, i2]
     · simp only [WNode.isBranch, WNode.children]
       cases cs with
@@ -215,9 +228,9 @@ theorem calc_stat (n : WNode) (acc : Nat) (r : Bool) :
     have h2 := ih2 c d s3
     rw [hn] at h1; rw [hns] at h2
     simp only at h1 h2
-    obtain ⟨a1, a2, a3, a4, a5⟩ := h1
-    obtain ⟨b1, b2, b3, b4⟩ := h2
+    obtain ⟨a1, a2, a3, a4, a5, a6⟩ := h1
+    obtain ⟨b1, b2, b3, b4, b5, b6⟩ := h2
     simp only [calcEncodedSizeList, hn, hns, StatList, leavesOfList, List.map_cons, List.length_cons]
-    refine ⟨⟨a1, ?_, b1⟩, by rw [a2, b2], by rw [a3, b3], by rw [b4]⟩
+    refine ⟨⟨a1, ?_, b1⟩, by rw [a2, b2], by rw [a3, b3], by rw [b4], by rw [a5, b5], by rw [a6, b6]⟩
     rw [a4, a5, a3]; exact s2
 end WuffsVerif.Rac
